@@ -67,6 +67,7 @@ type globalInit struct {
 	msg   string
 	idx   int
 	entries [][2]string
+	table   []int64
 }
 
 func LoadEngine(repo string, contractFiles map[string]string, specDir string) (*Engine, error) {
@@ -284,9 +285,9 @@ func (eng *Engine) sealedInterface(m *types.Func) bool {
 	return false
 }
 
-var pureExternal = []string{"fmt.", "errors.New", "errors.Is", "errors.As", "time.", "strconv.", "log.", "debug.Stack", "runtime.",
-	"(*log.Logger).", "(time.", "(*time.", "math.", "os.", "(fmt.", "sync/atomic.", "atomic.", "(*sync.Mutex).", "(*sync.RWMutex).",
-	"(*sync.WaitGroup).", "(*sync.Once).", "(*atomic.", "strings.", "unicode.", "(*strings.", "(error).Error", "(*errors.", "reflect."}
+var pureExternal = []string{"fmt.", "errors.New", "time.", "strconv.", "log.", "debug.Stack", "runtime.",
+	"(*log.Logger).", "(time.", "(*time.", "math.", "os.", "(fmt.", "(*sync.Mutex).", "(*sync.RWMutex).",
+	"(*sync.WaitGroup).", "(*sync.Once).", "strings.", "unicode.", "(*strings.", "(error).Error", "(*errors.", "reflect."}
 
 func (eng *Engine) isPureExternal(name string) bool {
 	for _, p := range pureExternal {
@@ -451,6 +452,27 @@ func onlyLoadedOrCalled(v ssa.Value) bool {
 
 func (eng *Engine) initOf(p *packages.Package, e ast.Expr) *globalInit {
 	if cl, ok := e.(*ast.CompositeLit); ok {
+		// [N]uintX{c0, c1, ...}: a constant lookup table
+		if at, ok := cl.Type.(*ast.ArrayType); ok && at.Len != nil {
+			var vals []int64
+			okAll := len(cl.Elts) > 0
+			for _, el := range cl.Elts {
+				tv, ok := p.TypesInfo.Types[el]
+				if !ok || tv.Value == nil {
+					okAll = false
+					break
+				}
+				v, err := strconv.ParseInt(tv.Value.ExactString(), 10, 64)
+				if err != nil {
+					okAll = false
+					break
+				}
+				vals = append(vals, v)
+			}
+			if okAll {
+				return &globalInit{kind: "intarray", table: vals}
+			}
+		}
 		if at, ok := cl.Type.(*ast.ArrayType); ok && at.Len == nil {
 			if _, isPtr := at.Elt.(*ast.StarExpr); isPtr {
 				gi := &globalInit{kind: "ptrslice", code: int64(len(cl.Elts))}
@@ -551,4 +573,34 @@ func (eng *Engine) errorStringTypeID() int {
 	id := len(eng.typeIDs) + 1
 	eng.typeIDs["*errors.errorString"] = id
 	return id
+}
+
+func (eng *Engine) inPackageType(n *types.Named) bool {
+	return n.Obj().Pkg() == eng.mainPkg.Pkg || n.Obj().Pkg() == eng.utilPkg.Pkg
+}
+
+// tablePrelude renders a constant table as an SMT function (balanced ite tree over the index).
+func (eng *Engine) tablePrelude(name string) string {
+	gi := eng.globals[name]
+	if gi == nil || gi.kind != "intarray" {
+		return ""
+	}
+	var rec func(lo, hi int) string
+	rec = func(lo, hi int) string {
+		if hi-lo == 1 {
+			return strconv.FormatInt(gi.table[lo], 10)
+		}
+		mid := (lo + hi) / 2
+		return fmt.Sprintf("(ite (< i %d) %s %s)", mid, rec(lo, mid), rec(mid, hi))
+	}
+	return fmt.Sprintf("(define-fun tbl.%s ((i Int)) Int %s)\n", sanitize(name), rec(0, len(gi.table)))
+}
+
+func (eng *Engine) sortedTypeIDs() []int {
+	ids := make([]int, 0, len(eng.typeByID))
+	for id := range eng.typeByID {
+		ids = append(ids, id)
+	}
+	sort.Ints(ids)
+	return ids
 }
